@@ -50,14 +50,14 @@ def reset_eql_state() -> int:
     from entity_query_language import symbolic as S
     from entity_query_language import cache_data as C
     leaked = 0
-    if S._symbolic_mode.get() is not None:
-        S._symbolic_mode.set(None)
+    if S.in_symbolic_mode():
+        S._set_symbolic_mode(None)
         leaked += 1
     if S.SymbolicExpression._symbolic_expression_stack_:
         del S.SymbolicExpression._symbolic_expression_stack_[:]
         leaked += 1
-    if not C._caching_enabled.get():
-        C._caching_enabled.set(True)
+    if not C.is_caching_enabled():
+        C.enable_caching()
     # the repo's own idiom (test/conftest.py) for clearing the instance registry
     for c in S.Variable._cache_.values():
         c.clear()
